@@ -120,7 +120,7 @@ pub fn def() -> PropDef {
     PropDef {
         id: "C07",
         level: "exploration",
-        rule: "histories with up to 3 handles open on different streams interleaved with creations, removals (stream, storage, recursive), resizes and overwrites of other entries; the generator never overwrites a stream that has an open handle and never opens two handles on one stream (such draws are skipped and counted in 'excluded'); when a stream with an open handle is removed, the handle is kept and later used (read, write_all+flush, set_len, seek, write, drop) with any outcome accepted - it must change nothing that exists (no stream is created while such a handle is alive: what it refers to once its slot holds a stream again is unspecified); after every step results are compared with the model, every 3 ops the full dump of all entries, every 4 ops the independent checker on the raw image (damage to slots the API can no longer reach), at the end dump + reopen in both modes. A scenario step runs 3000 (thorough: 30000) generated two-thread cases under the deterministic scheduler of C14: one thread uses two stream handles (write/read/seek/set_len/flush) while the other calls the &mut-self API on other entries (set_state_bits on any object incl. the root and the handles' own streams, set_storage_clsid, set_modified_time, touch, create/remove/overwrite of entries without handles); every call must succeed, nothing deadlocks or panics, and afterwards the live object and the strictly reopened image equal the model with both scripts applied and the independent checker accepts the image (shrunk by proptest). Non-trivial = a handle was used (read/write/set_len) after the removal of a sibling with two children whose in-order predecessor had an open handle (measured on the byte image by the independent parser), or after a creation that followed a removal (freed slot reuse); distinct = distinct case JSON.",
+        rule: "histories with up to 3 handles open on different streams interleaved with creations, removals (stream, storage, recursive), resizes and overwrites of other entries; the generator never overwrites a stream that has an open handle and never opens two handles on one stream (such draws are skipped and counted in 'excluded'); when a stream with an open handle is removed, the handle is kept and later used (read, write_all+flush, set_len, seek, write, drop) with any outcome accepted - it must change nothing that exists (no stream is created while such a handle is alive: what it refers to once its slot holds a stream again is unspecified); after every step results are compared with the model, every 3 ops the full dump of all entries, every 4 ops the independent checker on the raw image (damage to slots the API can no longer reach), at the end dump + reopen in both modes. A scenario step runs 3000 (thorough: 30000) generated two-thread cases under the deterministic scheduler of C14: one thread uses two stream handles (write/read/seek/set_len/flush) while the other calls the &mut-self API on other entries (set_state_bits on any object incl. the root and the handles' own streams, set_storage_clsid, set_modified_time, touch, create/remove/overwrite of entries without handles); every call must succeed, nothing deadlocks or panics, and afterwards the live object and the strictly reopened image equal the model with both scripts applied and the independent checker accepts the image (shrunk by proptest). Non-trivial = a handle was used (read/write/set_len) after the removal of a sibling with two children whose in-order predecessor had an open handle (measured on the byte image by the independent parser), or after a creation that followed a removal (freed slot reuse); distinct = distinct case JSON. Thorough tier: libFuzzer campaign fz_hist over byte-encoded histories (16-byte record per op) with this same runner and oracle.",
         assumptions: &["abstract model as in C01"],
         quick_cases: 2500,
         thorough_cases: 30000,
